@@ -125,8 +125,11 @@ def run (ctx : Algo.Ctx) (op : String) (args impl : List String) : Outcome :=
             if r == "-" then specFail s!"[C01] line {showNatList line} satisfies the query but is not reported"
             else specFail s!"[C01] line {showNatList line} is reported but does not satisfy the query"
           | none =>
-            -- the documented syntax is read as documented
-            if ext ∧ pat.termSets != terms ∧ query == Query.render fuzzy a then
+            -- the documented syntax is read as documented (theorem C01_documented_syntax; its hypothesis about
+            -- Go's unicode tables is checked on the dumped table)
+            if !ctx.lowerKeepsSyntax then
+              specFail "[C01] unicode.ToLower maps a non-ASCII rune to one of the syntax characters ! $ ' ^ | (hypothesis of C01_documented_syntax)"
+            else if ext ∧ pat.termSets != terms ∧ query == Query.render fuzzy a then
               specFail "[C01] the rendered query is not parsed into the documented terms"
             else specOk
       | _ => if impl.head? == some "crash" then specFail "[C01] matching crashed" else specFail "[C01] unparsable answer"
